@@ -26,6 +26,9 @@ Lexemes ==
     << N_(<<"a">>), N_(<<"a","-","b">>), N_(<<"a",".","1">>), N_(<<"#","o","b","j">>), N_(<<"n","o","d","e">>), N_(<<"s","e","l","f">>), N_(<<"c","o","m","m","e","n","t">>),
        N_(<<"p","r","o","c","e","s","s","i","n","g","-","i","n","s","t","r","u","c","t","i","o","n">>), N_(<<"c","o","u","n","t">>), N_(<<"p","a","r","e","n","t">>),
        [k |-> "qname", pre |-> "p", lo |-> <<"a">>], [k |-> "nsany", pre |-> "p"], [k |-> "localany", lo |-> <<"a">>], [k |-> "lit", s |-> <<"t">>],
+       \* QNames whose prefix and local part are (different) reserved words
+       [k |-> "qname", pre |-> "self", lo |-> <<"c","h","i","l","d">>], [k |-> "qname", pre |-> "text", lo |-> <<"n","o","d","e">>], [k |-> "nsany", pre |-> "comment"],
+       [k |-> "localany", lo |-> <<"p","a","r","e","n","t">>],
        P_("("), P_(")"), P_("/"), P_("//"), P_("::"), P_("@"), P_("*"), P_("["), P_("]"), [k |-> "num", v |-> NInt(1)] >>
 Init == s = <<>>
 Next == Len(s) < MaxLen /\ \E i \in 1..Len(Lexemes) : s' = Append(s, Lexemes[i])
@@ -41,9 +44,10 @@ GDoc == << [k |-> "root", p |-> 0, sp |-> <<>>, lo |-> <<>>, v |-> <<>>], El(1, 
            El(2, <<"c","h","i","l","d">>), El(10, <<"t","e","x","t">>), Tx(11, <<"1">>), El(10, <<"a","-","b">>), ElU(10, <<"a">>),
            [k |-> "comment", p |-> 2, sp |-> <<>>, lo |-> <<>>, v |-> <<"c">>], [k |-> "pi", p |-> 2, sp |-> <<>>, lo |-> <<"t">>, v |-> <<"d">>],
            El(2, <<"#","o","b","j">>), Tx(17, <<"1">>), El(2, <<"a",".","1">>), El(2, <<"n","o","d","e">>), El(2, <<"s","e","l","f">>),
-           El(2, <<"c","o","m","m","e","n","t">>), El(2, <<"c","o","u","n","t">>), El(2, <<"p","a","r","e","n","t">>) >>
+           El(2, <<"c","o","m","m","e","n","t">>), El(2, <<"c","o","u","n","t">>), El(2, <<"p","a","r","e","n","t">>),
+           ElU(2, <<"c","h","i","l","d">>), [k |-> "elem", p |-> 2, sp |-> U2, lo |-> <<"n","o","d","e">>, v |-> <<>>], ElU(2, <<"s","e","l","f">>) >>
 ASSUME WellFormed(GDoc)
-GEnv == [ns |-> [p |-> U1], vars |-> <<[sp |-> <<>>, lo |-> <<"v">>, val |-> [t |-> "ns", v |-> <<4, 8>>]], [sp |-> U1, lo |-> <<"v">>, val |-> NumV(NInt(7))]>>,
+GEnv == [ns |-> [p |-> U1, self |-> U1, text |-> U2, comment |-> U1], vars |-> <<[sp |-> <<>>, lo |-> <<"v">>, val |-> [t |-> "ns", v |-> <<4, 8>>]], [sp |-> U1, lo |-> <<"v">>, val |-> NumV(NInt(7))]>>,
          funcs |-> <<[sp |-> U1, lo |-> <<"c","o","u","n","t">>, kind |-> "nargs"]>>]
 Ctxs == <<2, 4>>
 Verdict == LET r == Parse(s) IN
